@@ -10,9 +10,19 @@ Definition colnorm (s : list nat) (st : blocks (@blk R)) (k r : nat) : R :=
   sqrt (Fsum Rops (nth k s 0%nat) (fun i => st k i r * st k i r)).
 (* scales_non_zero = where(scales == 0, 1, scales) *)
 Definition nonzero_scale (d : R) : R := if Req_EM_T d 0 then 1 else d.
-(* cp_normalize((weights, factors)): weights = weights * scales (factor after factor), factor / scales_non_zero *)
-Definition cp_normalize_R (s : list nat) (st : blocks (@blk R)) : blocks (@blk R) :=
+(* cp_normalize((weights, factors)), step by step as in tensorly/cp_tensor.py:
+     for i, factor in enumerate(factors):
+         if i == 0: factor = factor * weights; weights = ones(rank)          <- absorb_weights
+         scales = norm(factor, axis=0); scales_non_zero = where(scales == 0, 1, scales)
+         weights = weights * scales; normalized_factors.append(factor / scales_non_zero)   <- normalize_columns *)
+Definition absorb_weights (s : list nat) (st : blocks (@blk R)) : blocks (@blk R) :=
+  fun k i r =>
+    if k =? 0 then st 0%nat i r * st (length s) 0%nat r          (* factor 0 times the incoming weights *)
+    else if k =? length s then 1                                 (* weights = ones *)
+    else st k i r.
+Definition normalize_columns (s : list nat) (st : blocks (@blk R)) : blocks (@blk R) :=
   fun k i r =>
     if k <? length s then st k i r / nonzero_scale (colnorm s st k r)
     else if k =? length s then st k i r * prodF Rops (map (fun k' => colnorm s st k' r) (seq 0 (length s)))
     else st k i r.
+Definition cp_normalize_R (s : list nat) (st : blocks (@blk R)) : blocks (@blk R) := normalize_columns s (absorb_weights s st).
